@@ -7,6 +7,14 @@ ROOT = os.path.dirname(os.path.dirname(os.path.abspath(__file__)))
 
 # id -> (technique, level text, level note, design ref)
 CHECKS = {
+    "C15": ("Lean 4 invariant proof over a state-for-state model of the byte-at-a-time reader + full located-tree correspondence + independent slice oracle",
+            "Kernel-checked for ALL texts: streaming (any chunking through push/finalize) = whole parse; one invariant over parser states gives that every returned form is well-located (leaf location = exactly the token's bytes incl. quotes; every list node and everything below it inside that list's delimiters), stated strictly for forms without the recorded defect shapes (each witnessed by a decide theorem on the real witness text) and unconditionally with them admitted; reader error locations are non-empty in-bounds byte ranges (no exclusion); reader totality. Byte-offset statements assume tab-free text. Model tied to code by comparing the full located tree / error of parse_sexp and ParsePartialResult on generated re-laid-out programs of every token kind, all shipped sources, mutations, truncations at every offset, token soup; the oracle slices every leaf from the text independently; compiler-error locations are oracle-only over 6 dialect sigils.",
+            "Open findings listed in known_findings.json; compiler error locations and Srcloc::overlap/len are not covered by theorems; model/code tie is differential.",
+            "DESIGN.md §4 C15"),
+    "C16": ("differential run of real REPL sessions against compiled code and the Lean source semantics; Lean theorem for argument capture",
+            "REPL sessions (definitions then a closed or open expression from the program generator) are run on the real Repl; the printed residual is compiled back inside (mod PARAMS defs residual) and must agree with (mod PARAMS defs original) on every argument tree where the original returns a value, and with Lang.evalSrc. Kernel-checked part: names captured from a parameter pattern denote what source-level destructuring binds (shared path theorem). The reduction engine shrink_bodyform is not modelled; genuine defects found (free variables / let-bound names quoted inside compiled `if` fragments) are in known_findings.json.",
+            "Differential and generator-bounded; Lang.evalSrc trusted as the meaning.",
+            "DESIGN.md §4 C16"),
     "C03": ("differential run of the classic compiler against the Lean source semantics and against the modern cl21 build; Lean theorems for parameter path assignment (NodePath/optimiser theorems shared with C04)",
             "Classic-dialect programs from the generator (defun, defun-inline with destructuring, defmacro templates, defconstant, if/list/qq, 1..40 parameters) are compiled by the real classic compiler, run by clvmr and compared with Lang.evalSrc (Lean); the same text with the cl21 sigil is compiled by the modern compiler and both builds must agree. Kernel-checked: the parameter-path assignment is correct for all patterns and argument values (shared with C01); the classic optimiser's soundness is C04's theorem set.",
             "Differential and generator-bounded for the classic compiler's macro/com/opt machinery; Lean kernel for the path algebra; Lang.evalSrc trusted as the meaning.",
